@@ -33,8 +33,11 @@ def main():
             r = chx.run_harness(harness, ob.budget, ob.per_path, twin=False)
             res.update(r)
             if ob.twin and r["verdict"] == "CONFIRMED":
-                t = chx.run_harness(harness, min(ob.budget, 120.0), ob.per_path, twin=True)
-                res["twin"] = dict(verdict=t["verdict"], reached=t["reached"], paths=t["paths"], seconds=t["seconds"])
+                for attempt in range(3):
+                    t = chx.run_harness(harness, min(ob.budget, 120.0) * (attempt + 1), ob.per_path * (attempt + 1), twin=True)
+                    if t["verdict"] == "VIOLATED" and t["reached"] > 0:
+                        break
+                res["twin"] = dict(verdict=t["verdict"], reached=t["reached"], paths=t["paths"], seconds=t["seconds"], attempts=attempt + 1, message=t.get("message", "")[:200])
                 if not (t["verdict"] == "VIOLATED" and t["reached"] > 0):
                     res["verdict"] = "VACUOUS"
                     res["message"] = "reachability twin did not fail: " + t.get("message", "")
